@@ -22,6 +22,11 @@ def render_elem(x):
     return str(x) if not isinstance(x, str) else x
 
 
+def render_nested(v):
+    from .c13 import render
+    return render(v)
+
+
 def seqs(tier):
     out = []
     lens = range(0, 6)
@@ -129,6 +134,23 @@ def make_probe(desc, k):
             after[i] = 9
             return {"stmts": st, "expect": render_list(after), "tag": "set_in", "what": what}
         return {"stmts": st, "expect": None, "tag": "set_out", "what": what}
+    if form == "opcat":
+        _, variant = desc
+        y = "y%d" % k
+        if variant == "self":
+            st = [A.Declare(V(x), A.lst(A.lst(I(1)), A.lst(I(2)))), A.OpAssign("+", A.Index(V(x), I(0)), V(x)), A.pr(V(x)),
+                  A.pr(A.Call(A.Prop(A.Index(V(x), I(0)), "type", True), []))]
+            exp = render_nested([[1, [1], [2]], [2]]) + ["list"]
+        elif variant == "other":
+            st = [A.Declare(V(x), A.lst(A.lst(I(1)), I(5))), A.Declare(V(y), A.lst(I(7), I(8))), A.OpAssign("+", A.Index(V(x), I(0)), V(y)), A.pr(V(x)), A.pr(V(y))]
+            exp = render_nested([[1, 7, 8], 5]) + render_nested([7, 8])
+        elif variant == "element_of_self":
+            st = [A.Declare(V(x), A.lst(A.lst(I(1)), A.lst(I(2), I(3)))), A.OpAssign("+", A.Index(V(x), I(0)), A.Index(V(x), I(1))), A.pr(V(x))]
+            exp = render_nested([[1, 2, 3], [2, 3]])
+        else:
+            st = [A.Declare(V(x), A.lst(S("ab"), S("c"))), A.OpAssign("+", A.Index(V(x), I(0)), A.Index(V(x), I(1))), A.pr(V(x))]
+            exp = render_nested(["abc", "c"])
+        return {"stmts": st, "expect": exp, "tag": "element_concat", "what": "element += (%s)" % variant}
     if form == "setstr":
         _, c = desc
         return {"stmts": [A.Declare(V(x), S("".join(c))), A.Assign(A.Index(V(x), I(0)), S("z"))], "expect": None, "tag": "set_string", "what": "string element assignment"}
@@ -226,6 +248,8 @@ def run(rep, tier):
         for i in range(-2, n + 3):
             descs.append(("set", c, i))
     descs.append(("setstr", ("a", "b")))
+    for variant in ("self", "other", "element_of_self", "strings"):
+        descs.append(("opcat", variant))
     wl = [c for c in lists if len(c) <= 3] + [c for c in lists if len(c) > 3][:: (4 if tier == "quick" else 1)]
     for c in wl:
         n = len(c)
